@@ -312,6 +312,7 @@ int main(int argc, char **argv) {
 	snprintf(prefix, sizeof prefix, "vfC19-%d-%llu", (int)getpid(), (unsigned long long)seed);
 	memset(&sa, 0, sizeof sa); sa.sa_handler = on_sig; sigemptyset(&sa.sa_mask); sa.sa_flags = 0;   /* no SA_RESTART */
 	sigaction(SIGUSR1, &sa, NULL);
+	(void)vh_private_net();
 	p_libsys_init();
 	{ pthread_t wd; pthread_create(&wd, NULL, wd_fn, NULL); }
 	if (!strcmp(mode, "signals")) {
